@@ -159,6 +159,22 @@ def _impl(tier, seed, search):
             elif ok: L.close('SE2.interp', Us[:2, :2], inputs.r2(a0 + s * da), TOL, 1.0, i2)
             ok, Us = L.noraise('trinterp2-R', lambda: b.trinterp2(inputs.r2(a0), inputs.r2(a1), s), i2, 'trinterp2 on SO(2)')
             if ok and isinstance(Us, np.ndarray): L.close('trinterp2-R', Us, inputs.r2(a0 + s * da), TOL, 1.0, i2)
+            # a vector of s (with and without an explicit start) gives, element by element, the scalar results
+            svec2 = [0.0, s, 1.0, 0.5 * s]
+            for cls2, M0, M1 in ((SE2, U0, U1), (SO2, U0[:2, :2], U1[:2, :2])):
+                for with_start in (True, False):
+                    def vec_call():
+                        st = dict(start=cls2(M0, check=False)) if with_start else {}
+                        V = cls2(M1, check=False).interp(svec2, **st)
+                        S1 = [cls2(M1, check=False).interp(s_, **st).A for s_ in svec2]
+                        return [np.asarray(a_, float) for a_ in V.data], S1
+                    ok, r = L.noraise(f'{cls2.__name__}.interp(vector)', vec_call, dict(i2, start=with_start), f'{cls2.__name__}.interp(vector s)')
+                    if ok:
+                        L.check(f'{cls2.__name__}.interp(vector):len', len(r[0]) == len(svec2), dict(i2, start=with_start), 'vector s does not give one pose per s')
+                        if len(r[0]) == len(svec2):
+                            for k_ in range(len(svec2)):
+                                L.close(f'{cls2.__name__}.interp(vector)', r[0][k_], r[1][k_], TOL, max(1.0, tsc), dict(i2, start=with_start, k=k_),
+                                        what='interp with a vector of s differs from the scalar calls', sig=f'{cls2.__name__}.interp(vector):{"start" if with_start else "nostart"}')
     return L.result()
 
 if __name__ == '__main__':
